@@ -271,7 +271,7 @@ func init() {
 				if r.Bool() {
 					s = "ema"
 				}
-				return Cfg{I: []int{r.Range(1, 12)}, F: []float64{r.PickF(0.25, 0.5, 1, 5, 20, 50)}, S: s}
+				return Cfg{I: []int{r.Range(1, 12)}, F: []float64{r.PickF(0, 0.25, 0.5, 1, 5, 20, 50)}, S: s}
 			},
 			New: func(c Cfg) Inst {
 				x := trend.NewEnvelope[float64](tbEnvelopeMa(c), c.F[0])
